@@ -336,7 +336,8 @@ Proof.
     rewrite Hb. cbn [app]. apply props_body_nil in Hb.
     + subst. reflexivity.
     + destruct Hinv as (_ & Hok & _). intros e He. apply (sval_ok_id _ (snd e)). apply Hok. assumption.
-  - unfold buf_next. rewrite takeN_app_exact, dropN_app_exact.
+  - rewrite shorter_spec. replace (len (props_body p ++ rest) <? len (props_body p)) with false by (rewrite len_app; lia).
+    unfold buf_next. rewrite takeN_app_exact, dropN_app_exact.
     fold (props_run pt props_empty (props_body p)). rewrite props_run_body by assumption. cbn [bind].
     destruct Hinv as (_ & _ & _ & _ & _ & Hauth).
     destruct (is_some (ps_get 22 (pr_single p))) eqn:E22; [|reflexivity].
